@@ -183,5 +183,7 @@ _WORLD = {
     'C20': ((2, 1, 4), (2, 2, 6)),
 }
 for _p, (_q, _t) in _WORLD.items():
-    CHECKS[_p] = dict(title=_p, parallel=1,
+    CHECKS[_p] = dict(title=_p, parallel=1, rule='BFS over histories of the %s profile of harness/world.c (see DESIGN.md 6/%s): dedup on (canonical monitor state, last k ops), 2 probe suffixes per new state' % (_p, _p),
+                      bounds=dict(quick='modules=%d deviations<=%d depth=%d' % _q, thorough='modules=%d deviations<=%d depth=%d k=2' % _t),
+                      assumptions=['single thread, one context', 'real kernel pipes/epoll, virtual time through the link-time shim', 'handles passed are live references owned by the caller'],
                       parts=[world_part('w', quick=[_w(_p, _q[0], _q[1], _q[2], 200)], thorough=[_w(_p, _t[0], _t[1], _t[2], 2400, 2)])])
